@@ -119,22 +119,35 @@ PENDING = {
         "df.loc[[labels]].partitions[i] applies the label list of output partition i to input partition i -> KeyError",
     "loc:compute:KeyError@base.py:compute":
         "df.loc[[labels]].loc[label] raises KeyError (same Partitions push-down through LocList, reached via LocElement._lower)",
-    # --- reported partition count differs from the graph's
+    # --- reported partition count differs from the reported divisions
     "repartition:npartitions:more:numeric-or-datetime-index:graph:npartitions-vs-divisions":
         "repartition(npartitions=n) above what the interpolated unique divisions allow: npartitions == n but len(divisions)-1 < n",
     "set_index:npartitions:graph:npartitions-vs-divisions":
         "set_index(col, npartitions=n): npartitions reports n although fewer quantile divisions exist",
-    "optimize:Projection-over-Concat[axis=1]:graph:partition-count-vs-divisions":
+    # --- the optimised/lowered graph has another partitioning than the one reported
+    "optimize:Projection-over-Concat[axis=1]:reported-divisions-not-those-of-the-graph":
         "column projection after concat(axis=1) drops whole input frames: partitioning (and for join='inner' the rows) change",
-    "optimize:Filter-over-SetIndex[quantiles]:graph:partition-count-vs-divisions":
+    "optimize:Filter-over-SetIndex[quantiles]:reported-divisions-not-those-of-the-graph":
         "filter pushed below set_index changes the quantile divisions: graph partitions differ from the reported divisions",
-    "optimize:SetIndex[divisions]:reported-divisions-lost-on-lowering:exception-downstream":
+    "filter:compute:ValueError@dataframe/dask_expr/_repartition.py:_layer":
+        "same push-down through set_index(...).repartition(divisions=...): 'right side of old and new divisions are different'",
+    "optimize:SetIndex[divisions]:reported-divisions-not-those-of-the-graph":
         "set_index(col, divisions=[lo, hi]) on a 1-partition frame reports the divisions but lowers to unknown divisions; loc/repartition then raise",
+    "optimize:SetIndex[quantiles]:reported-divisions-not-those-of-the-graph":
+        "set_index after sort_values/cumulative ops: quantile divisions are recomputed at lowering on a differently partitioned input and differ from the reported ones",
+    "optimize:LocSlice:reported-divisions-not-those-of-the-graph":
+        "df.loc[a:b].loc[c:d] reports other divisions than its lowered form; repartition(divisions, force=True) then raises",
+    "repartition:compute:ValueError@dataframe/dask_expr/_repartition.py:_lower":
+        "sort_values on one partition reports unknown divisions, repartition(npartitions=1) on top reports known ones; repartition(divisions=) then raises 'unknown divisions'",
     # --- exceptions on the construction paths
     "set_index:construct:IndexError@dataframe/dask_expr/_collection.py:compute_current_divisions":
         "set_index(col, sorted=True) on an empty frame raises IndexError",
     "set_index:compute:AttributeError@_expr.py:__getattr__":
         "rolling(...).agg().set_index(col): 'MapOverlap' object has no attribute 'required_columns'",
+    "set_index:compute:AssertionError@dataframe/dask_expr/_repartition.py:_partitions_boundaries":
+        "set_index(a).set_index(b, sort=False).set_index(c): AssertionError in RepartitionToFewer",
+    "set_index:divisions-attribute:RuntimeError@_expr.py:__getattr__":
+        "join(how='right') then set_index(col): 'Failed to generate metadata for Merge' ('Series' object has no attribute 'merge')",
 }
 
 INDEX_KINDS = ("range", "sorted", "dups", "dups", "unsorted", "datetime", "strings", "float")
@@ -513,7 +526,8 @@ def _apply(step, ddf, cur, rng, gparts=()):
         return ddf.sort_values(avail[rng.randrange(len(avail))]), "sort_values"
 
     if op == "window":
-        form = rng.choice(("rolling", "cumsum", "cummax", "shift", "shift-neg", "diff", "ffill"))
+        # (no cummin/cummax: they fail on one-column frames, which projection push-down creates -- C46's subject)
+        form = rng.choice(("rolling", "cumsum", "cumsum", "shift", "shift-neg", "diff", "ffill"))
         if any(len(p) == 0 for p in gparts):
             raise _Skip("window/cumulative ops over empty partitions are C46's subject")
         tgt = ddf
